@@ -143,12 +143,12 @@ def one_storage(ctx, hid, seed, ncor):
     w = hist.World(ctx, hid, rng, max_groups=3, max_per_group=4)
     out = []
     try:
-        # the same content twice, the copy several directory levels deep and after the original in walk order: restore
-        # writes the copy when it meets the original and has to create the copy's ancestors itself
+        # the same content twice, both several directory levels deep in different directories: restore writes the copy
+        # when it meets the original and has to create the copy's ancestors itself
         w.next_cid += 1
-        w.write(os.path.join(w.items[0], 'aa-original'), w.next_cid, 5000)
-        os.makedirs(os.path.join(w.items[0], 'zz', 'deep', 'er'), exist_ok=True)
-        w.write(os.path.join(w.items[0], 'zz', 'deep', 'er', 'copy'), w.next_cid, 5000)
+        for top in ('aa', 'zz'):        # (whichever the walk meets first is stored; the other one is the deep copy)
+            os.makedirs(os.path.join(w.items[0], top, 'deep', 'er'), exist_ok=True)
+            w.write(os.path.join(w.items[0], top, 'deep', 'er', 'twin'), w.next_cid, 5000)
         for _ in range(rng.randint(4, 10)):
             w.edit()
         for k in range(rng.randint(2, 4)):
